@@ -231,6 +231,21 @@ def _include_contexts(ctx, label, prefixes=None):
     return r
 
 
+def _include_random(ctx, sig_prefix="c07"):
+    """V/oracle: random projects beyond the bounds of MC_C07 (six files in two directories, INCLUDE names relative to the including
+    file's directory, up to 7 tokens per file) drawn by the harness; MC_IncRand.tla runs Inc.tla on each logged project, checks the
+    model invariants on the run and emits the expectation; c07-replay compares the real build with it."""
+    n = 3000 if ctx.quick else 60000
+    d = os.path.join(ctx.scratch, "incrand-%d" % len(ctx.cov["tlc_runs"]))
+    os.makedirs(d)
+    log_path = os.path.join(d, "inc_rand.ndjson")
+    gen = ctx.vh("inc-rand", log_path, ctx.seed, n)
+    r = ctx.tlc("MC_IncRand", extra_files=[log_path], timeout=3000)
+    res = ctx.vh_isolated("c07-replay", r.out, chunk=20000, timeout=900, sig_prefix=sig_prefix)
+    res.setdefault("extra", {})["random_projects"] = gen["cases"]
+    return r, res
+
+
 def run_C07(ctx):
     ctx.cov["rule"] = ("G: every terminal state of the include-graph model (3 files quick / 4 thorough; root <= 3 tokens, others <= 2, menu: TYPE, a misplaced Body, "
                        "explicit URL, ')', INCLUDE of each file / of a missing file, plus rare names and malformed INCLUDE lines); contents are chosen lazily when a file is first opened. "
@@ -245,6 +260,8 @@ def run_C07(ctx):
     st = ctx.vh("c07-replay", r.out, "selftest")
     ctx.selftest(st["n_mismatch"] >= st["cases"] * 0.95, "C07 G: corrupted verdicts / traces are reported")
     _include_contexts(ctx, "G:c07-replay(contexts across files)")
+    rr, resr = _include_random(ctx)
+    ctx.absorb(_only(resr, ["c14:"], invert=True), "V:c07-replay(random projects in two directories, judged by Inc.tla)")
     # build-phase errors (rule errors of types that refer to each other, validateCatalog errors) in split projects: MC_C09
     r9 = ctx.tlc("MC_C09", cfg="MC_C09_quick.cfg" if ctx.quick else "MC_C09_thorough.cfg", timeout=3000)
     res9 = ctx.vh("c09-replay", r9.out)
@@ -269,6 +286,11 @@ def run_C14(ctx):
     res2 = dict(res2, mismatches=keep, n_mismatch=len(keep))
     ctx.absorb(res2, "G:c07-replay(graphs)")
     ctx.cov["exhaustive"] = True
+    # names are relative to the directory of the including file: random projects in two directories (MC_IncRand)
+    rr, resr = _include_random(ctx)
+    keep = [m for m in (resr.get("mismatches") or []) if not m["sig"].startswith("c07:tracer-cache-quirk")
+            and not m["sig"].startswith(("c07:trace-", "c07:node-trace", "c07:dup-trace", "c07:location-fields"))]
+    ctx.absorb(dict(resr, mismatches=keep, n_mismatch=len(keep)), "V:c07-replay(random projects in two directories)")
 
 
 def run_C09(ctx):
@@ -321,6 +343,11 @@ def run_C02(ctx):
     ctx.cov["exhaustive"] = True
     st = ctx.vh("doc-replay", r.out, "selftest")
     ctx.selftest(st["n_mismatch"] == st["cases"], "C02 G: corrupted skeletons / verdicts are reported")
+    # beyond the exhaustive bound: random behaviours of the same specification (tlc -simulate): documents of up to 5 blocks
+    # around the dependency prelude; every one-block extension of every visited prefix is emitted and replayed
+    rs = ctx.tlc("MC_C02", cfg="MC_C02_sim.cfg", simulate=1 if ctx.quick else 30, depth=6, seed=ctx.seed, label="MC_C02(simulate)", timeout=3300)
+    ress = ctx.vh("doc-replay", rs.out, env={"VH_LAYOUTS": "1" if ctx.quick else "2", "VERIF_SEED": str(ctx.seed)}, timeout=3300)
+    ctx.absorb(ress, "G:doc-replay(simulated documents of up to 5 blocks + prelude)")
     # a layout may also distribute the description over INCLUDEd files: the split projects of MC_C09 (same catalog as the unsplit text)
     r9 = ctx.tlc("MC_C09", cfg="MC_C09_quick.cfg" if ctx.quick else "MC_C09_thorough.cfg", timeout=3000)
     res9 = ctx.vh("c09-replay", r9.out)
@@ -675,6 +702,8 @@ def run_C01(ctx):
     r3 = ctx.tlc("MC_C07", cfg="MC_C07_quick.cfg", timeout=3000)
     res3 = ctx.vh_isolated("c07-replay", r3.out, chunk=20000, timeout=900, sig_prefix="c01")
     ctx.absorb(_only(res3, ["c01:", "c07:panic"]), "G:c07-replay(include graphs, crash-only)")
+    r3b, res3b = _include_random(ctx, sig_prefix="c01")
+    ctx.absorb(_only(res3b, ["c01:", "c07:panic"]), "V:c07-replay(random include projects in two directories, crash-only)")
     # type graphs (references, 'or', properties, items, allOf; cyclic or not) x every site that uses a type
     r4 = ctx.tlc("MC_C01types", cfg="MC_C01types_quick.cfg", timeout=1800)
     res4 = ctx.vh_isolated("types-build", r4.out, chunk=4000, timeout=600, sig_prefix="c01")
